@@ -17,7 +17,14 @@ pub enum Case {
     /// search probes of the content and the names in the bytes after the header
     Scan { prog: Program },
     /// which key lists open the archive
-    Keys { nrecip: usize, layers: u8, seed: u64 },
+    Keys {
+        nrecip: usize,
+        layers: u8,
+        seed: u64,
+        /// route through the configuration builder (None: from the seed)
+        #[serde(default)]
+        route: Option<u8>,
+    },
 }
 
 fn fixed_program(layers: u8, nrecip: usize) -> Program {
@@ -41,6 +48,60 @@ fn secrets_of_one(p: &Program, k: &model::consts::K, route: u8) -> Result<(Strin
         hex::encode(e.eph_pub),
         e.wrapped.iter().map(|(k, t)| format!("{}{}", hex::encode(k), hex::encode(t))).collect(),
     ))
+}
+
+type Secrets = (String, String, String, Vec<String>);
+
+unsafe extern "C" {
+    fn fork() -> i32;
+    fn pipe(fds: *mut i32) -> i32;
+    fn read(fd: i32, buf: *mut u8, n: usize) -> isize;
+    fn write(fd: i32, buf: *const u8, n: usize) -> isize;
+    fn close(fd: i32) -> i32;
+    fn waitpid(pid: i32, status: *mut i32, options: i32) -> i32;
+    fn _exit(code: i32) -> !;
+}
+
+/// fork without exec; the child creates one archive and reports its secrets through a pipe (raw
+/// write, no stdio lock), the parent creates one too. None when fork / pipe are not available.
+fn forked_pair(p: &Program, k: &model::consts::K) -> Option<(Secrets, Secrets)> {
+    let mut fds = [0i32; 2];
+    if unsafe { pipe(fds.as_mut_ptr()) } != 0 {
+        return None;
+    }
+    let pid = unsafe { fork() };
+    if pid < 0 {
+        return None;
+    }
+    if pid == 0 {
+        let line = match secrets_of_one(p, k, 0) {
+            Ok((a, b, c, d)) => json!({"key": a, "nonce": b, "eph": c, "wrapped": d}).to_string(),
+            Err(e) => json!({"error": e}).to_string(),
+        };
+        unsafe {
+            write(fds[1], line.as_ptr(), line.len());
+            _exit(0);
+        }
+    }
+    unsafe { close(fds[1]) };
+    let mine = secrets_of_one(p, k, 0).ok();
+    let mut buf = vec![0u8; 65536];
+    let mut got = Vec::new();
+    loop {
+        let n = unsafe { read(fds[0], buf.as_mut_ptr(), buf.len()) };
+        if n <= 0 {
+            break;
+        }
+        got.extend_from_slice(&buf[..n as usize]);
+    }
+    unsafe {
+        close(fds[0]);
+        let mut st = 0i32;
+        waitpid(pid, &mut st, 0);
+    }
+    let v: Value = serde_json::from_slice(&got).ok()?;
+    let theirs = (v["key"].as_str()?.to_string(), v["nonce"].as_str()?.to_string(), v["eph"].as_str()?.to_string(), v["wrapped"].as_array()?.iter().filter_map(|x| x.as_str().map(String::from)).collect());
+    Some((mine?, theirs))
 }
 
 /// entry point of the child processes: prints one JSON line per archive
@@ -76,7 +137,11 @@ pub fn cases(ctx: &Ctx) -> Vec<Case> {
         }
         for nrecip in sets {
             for layers in [1u8, 3] {
-                v.push(Case::Keys { nrecip, layers, seed: rng.next() });
+                v.push(Case::Keys { nrecip, layers, seed: rng.next(), route: None });
+                if (2..=6).contains(&nrecip) || nrecip == 85 {
+                    // the same with the recipients registered one call at a time
+                    v.push(Case::Keys { nrecip, layers, seed: rng.next(), route: Some(7) });
+                }
             }
         }
     }
@@ -209,6 +274,18 @@ pub fn run_case(ctx: &mut Ctx, c: &Case) {
                     }
                 }
             }
+            // a process forked (no exec) after this thread has already created archives: parent and child
+            // each create one more; whatever generator state the library keeps is shared at that point
+            if let Some((parent_one, child_one)) = forked_pair(&p, &k) {
+                ctx.count("musthit:archives_created_on_both_sides_of_a_fork");
+                for (what, a, b2) in [("symmetric-key", &parent_one.0, &child_one.0), ("archive-nonce", &parent_one.1, &child_one.1), ("ephemeral-public-key", &parent_one.2, &child_one.2)] {
+                    if a == b2 {
+                        ctx.violation("C07", &format!("repeated-{what}-across-fork:layers{layers}"), scen(), json!({"value_prefix": &a[..a.len().min(16)]}));
+                    }
+                }
+                add(child_one.0, child_one.1, child_one.2, child_one.3);
+                add(parent_one.0, parent_one.1, parent_one.2, parent_one.3);
+            }
             ctx.add("archives_in_child_processes", child_archives);
             ctx.add("child_processes", *procs as u64);
             if child_archives > 0 {
@@ -286,11 +363,17 @@ pub fn run_case(ctx: &mut Ctx, c: &Case) {
                 Err((loc, msg)) => ctx.violation("C01", &format!("panic:{loc}"), scen(), json!({"panic": msg})),
             }
         }
-        Case::Keys { nrecip, layers, seed } => {
+        Case::Keys { nrecip, layers, seed, route } => {
             ctx.eval(*seed, true);
             let mut p = single_file(*layers, 5, Sz::lit(300), DataKind::Random, *seed);
             p.nrecip = *nrecip;
-            let Ok(Ok(b)) = guarded(|| drv::build(&p, &k, Sched::All)) else {
+            drv::CONFIG_PATH.with(|c| c.set(*route));
+            let built = guarded(|| drv::build(&p, &k, Sched::All));
+            drv::CONFIG_PATH.with(|c| c.set(None));
+            if route == &Some(7) {
+                ctx.count("recipients_registered_one_call_at_a_time");
+            }
+            let Ok(Ok(b)) = built else {
                 ctx.violation("C01", "c07-build-failed", scen(), json!({}));
                 return;
             };
